@@ -117,6 +117,7 @@ def expected_fused_blocks(sym, x, xf, groups, absval=False):
     if errs:
         return None, errs
     exp = {}
+    common = np.result_type(*[np.asarray(b).dtype for b in x.blocks.values()]) if x.blocks else np.float64
     for sec, blk in x.blocks.items():
         blk = np.asarray(blk)
         if absval:
@@ -145,7 +146,7 @@ def expected_fused_blocks(sym, x, xf, groups, absval=False):
                 shape = tuple(xf.indices[k].chargemap[c] for k, c in enumerate(new_sec))
             except KeyError:
                 return None, [("fused-charge-missing", f"{new_sec}")]
-            exp[new_sec] = np.zeros(shape, dtype=blk.dtype)
+            exp[new_sec] = np.zeros(shape, dtype=(np.abs(np.zeros(1, dtype=common)).dtype if absval else common))
         try:
             exp[new_sec][tuple(sl)] = t.reshape(new_shape)
         except ValueError as e:
@@ -284,6 +285,28 @@ def fuse_case_failures(d, groups, st=None, nested=None, cache=None, empty=True):
                 st.transitions += 2
         except Exception as e:
             fails.append((f"C05/conj-unfuse/raised-{type(e).__name__}", f"groups={groups}: {e}"))
+    # blocks of differing element type (what a + 1j * b leaves when b is sparser than a): nothing may be lost in the fused array
+    if results and not ferm and n <= 3 and len(x.blocks) >= 2:
+        secs = list(x.blocks)
+        for rname, rec in (("real-first", lambda k, b: b if k == 0 else b + 1j * (b + 1)), ("complex-first", lambda k, b: b + 1j * (b + 1) if k == 0 else b)):
+            try:
+                xm = x.copy_with(blocks={sec: rec(k, np.asarray(x.blocks[sec])) for k, sec in enumerate(secs)})
+                got = {}
+                for mode in ("insert", "concat"):
+                    xf = xm.fuse(*groups, mode=mode)
+                    if st is not None:
+                        st.transitions += 1
+                    exp, errs = expected_fused_blocks(sym, xm, xf, groups)
+                    if not errs:
+                        errs = compare_blocks(xf.blocks, exp)
+                    for kind, det in errs:
+                        fails.append((f"C05/fuse[{mode},mixed-dtype]/{kind}", f"groups={groups} {rname}: {det}"))
+                    got[mode] = xf
+                a, b = got["insert"], got["concat"]
+                if set(a.blocks) != set(b.blocks) or not all(exact_equal(a.blocks[s_], b.blocks[s_]) for s_ in a.blocks):
+                    fails.append(("C05/strategies-differ/insert-vs-concat[mixed-dtype]", f"groups={groups} {rname}"))
+            except Exception as e:
+                fails.append((f"C05/fuse[mixed-dtype]/raised-{type(e).__name__}", f"groups={groups} {rname}: {e}"))
     # empty groups: ignored with expand_empty=False, a new singlet axis (identity charge) at the group's position otherwise
     if results and empty and n <= 3:
         plain = results[keys[0]]
